@@ -208,8 +208,11 @@ impl ServerPublicKey {
   fn get_combined_pk_value(&self, md: u8) -> Result<Point, PPRFError> {
     let res = self.get(md);
     let md_pk = res.ok_or(PPRFError::BadTag { md })?;
-    let b = self.base_pk.decompress().unwrap();
-    let md = md_pk.decompress().unwrap();
+    let b = self
+      .base_pk
+      .decompress()
+      .ok_or(PPRFError::BadPointEncoding)?;
+    let md = md_pk.decompress().ok_or(PPRFError::BadPointEncoding)?;
     Ok(Point::from(b + md))
   }
 
@@ -443,12 +446,20 @@ impl Client {
     md: u8,
   ) -> bool {
     let Evaluation { output, proof } = eval;
+    let proof = match proof.as_ref() {
+      Some(proof) => proof,
+      None => return false,
+    };
+    let output = match output.decompress() {
+      Some(output) => output,
+      None => return false,
+    };
+    let input = match input.decompress() {
+      Some(input) => input,
+      None => return false,
+    };
     if let Ok(public_value) = public_key.get_combined_pk_value(md) {
-      return proof.as_ref().unwrap().verify_batch(
-        &public_value.into(),
-        &[output.decompress().unwrap()],
-        &[input.decompress().unwrap()],
-      );
+      return proof.verify_batch(&public_value.into(), &[output], &[input]);
     }
     false
   }
